@@ -2,34 +2,35 @@
 # usage: tools/confirm_seed.sh <PID> <k>   -- confirm seeded mutation k of property PID in the agent's scratch worktree
 # and, if confirmed, store it under /verif/seeded/<PID>-<k>/
 set -u
-pid="$1"; k="$2"
-wt=/tmp/wt-$pid; out=/tmp/out-$pid; dst=/verif/seeded/$pid-$k
+# optional: SRC_K=<n> (patch number in the agent's output dir, default k), WT=<worktree>, OUT=<agent output dir>
+pid="$1"; k="$2"; sk="${SRC_K:-$k}"
+wt=${WT:-/tmp/wt-$pid}; out=${OUT:-/tmp/out-$pid}; dst=/verif/seeded/$pid-$k
 log=/tmp/confirm-$pid-$k.log
 export CARGO_NET_OFFLINE=true
 cd $wt || exit 3
 git checkout -q -- . ; git clean -fdq -e target
 echo "== apply" > $log
-git apply $out/patch$k.diff >> $log 2>&1 || { echo "APPLY FAILED" >> $log; exit 3; }
+git apply $out/patch$sk.diff >> $log 2>&1 || { echo "APPLY FAILED" >> $log; exit 3; }
 echo "== suite with mutation" >> $log
 cargo test --workspace --no-fail-fast --offline > /tmp/confirm-$pid-$k.suite 2>&1; suite_rc=$?
 grep -E "^test result|FAILED|failed" /tmp/confirm-$pid-$k.suite >> $log
 echo "suite_rc=$suite_rc" >> $log
 echo "== demo with mutation" >> $log
-bash $out/demo$k/run.sh > /tmp/confirm-$pid-$k.demo_mut 2>&1
+bash $out/demo$sk/run.sh > /tmp/confirm-$pid-$k.demo_mut 2>&1
 tail -3 /tmp/confirm-$pid-$k.demo_mut >> $log
 demo_mut=$(grep -oE "DEMO (PASS|FAIL)" /tmp/confirm-$pid-$k.demo_mut | tail -1)
 git checkout -q -- . ; git clean -fdq -e target
 echo "== demo without mutation" >> $log
-bash $out/demo$k/run.sh > /tmp/confirm-$pid-$k.demo_clean 2>&1
+bash $out/demo$sk/run.sh > /tmp/confirm-$pid-$k.demo_clean 2>&1
 tail -3 /tmp/confirm-$pid-$k.demo_clean >> $log
 demo_clean=$(grep -oE "DEMO (PASS|FAIL)" /tmp/confirm-$pid-$k.demo_clean | tail -1)
 git checkout -q -- . ; git clean -fdq -e target
 echo "RESULT pid=$pid k=$k suite_rc=$suite_rc demo_mut='$demo_mut' demo_clean='$demo_clean'" >> $log
 if [ "$suite_rc" = 0 ] && [ "$demo_mut" = "DEMO FAIL" ] && [ "$demo_clean" = "DEMO PASS" ]; then
   mkdir -p $dst
-  cp $out/patch$k.diff $dst/patch.diff
-  rm -rf $dst/demo; cp -r $out/demo$k $dst/demo
-  cp $out/notes$k.md $dst/notes.md
+  cp $out/patch$sk.diff $dst/patch.diff
+  rm -rf $dst/demo; cp -r $out/demo$sk $dst/demo
+  cp $out/notes$sk.md $dst/notes.md
   cp $log $dst/confirm.log
   echo "CONFIRMED" >> $log
 else
